@@ -5,7 +5,7 @@ pub fn def() -> PropDef {
     PropDef {
         id: "C02",
         builds: BOTH,
-        rule: "every well-formed text over each menu up to length N x first-fit configurations (both separators, none/hyphen splitter, break_words on/off, 7 indent pairs covering every order relation between the indent widths and the width, width range); non-trivial = text with >= 2 paragraphs under indents of different display widths",
+        rule: "every well-formed text over each menu up to length N x first-fit configurations (both separators, none/hyphen splitter, break_words on/off, 9 indent pairs covering every order relation between the indent widths and the width, and pairs whose byte lengths are ordered the other way round than their display widths, width range); non-trivial = text with >= 2 paragraphs under indents of different display widths",
         assumptions: BASE_ASSUMPTIONS,
         floor: |t| t.pick(50_000, 150_000),
         run,
@@ -18,7 +18,7 @@ pub fn gamma() -> Gamma {
         algs: vec![Alg::FirstFit],
         spls: vec![Spl::None, Spl::Hyphen],
         bws: vec![true, false],
-        indents: vec![("", ""), ("", "    "), ("    ", ""), (">", "\u{4f60}"), ("\u{4f60}", ">"), (">>>>>>", "  "), ("\x1b[1m", "")],
+        indents: vec![("", ""), ("", "    "), ("    ", ""), (">", "\u{4f60}"), ("\u{4f60}", ">"), (">>>>>>", "  "), ("\x1b[1m", ""), (">>", "\u{e9}"), (">", "\x1b[1m")],
         crlf: vec![false, true],
     }
 }
